@@ -28,21 +28,26 @@ NOTE = "Trusted: the reference resolver (15 lines). Imports can only address the
 
 NAMES = ["X", "Y"]
 DIRS = ["", "sub", "sub.deep"]
+FILES = ["a", "base", "s"]  # short file names, as users choose them (a.tx, base.tx, s.tx)
+
+
+def fname(i):
+    return FILES[i]
 
 
 def ns(i, place):
     d = DIRS[place[i]]
-    return ("%s.f%d" % (d, i)) if d else "f%d" % i
+    return ("%s.%s" % (d, fname(i))) if d else fname(i)
 
 
 def rel_import(i, j, place):
     """import name of file j as written in file i, or None if not addressable"""
     di, dj = DIRS[place[i]], DIRS[place[j]]
     if di == dj:
-        return "f%d" % j
+        return fname(j)
     if di == "" or dj.startswith(di + "."):
         rest = dj[len(di):].lstrip(".")
-        return "%s.f%d" % (rest, j)
+        return "%s.%s" % (rest, fname(j))
     return None
 
 
@@ -116,7 +121,7 @@ def run_case(n, place, imports, defs):
                 reach.add(j)
                 todo.append(j)
     for i in range(n):
-        with open(os.path.join(d, DIRS[place[i]].replace(".", "/"), "f%d.tx" % i), "w") as f:
+        with open(os.path.join(d, DIRS[place[i]].replace(".", "/"), fname(i) + ".tx"), "w") as f:
             f.write(file_text(i, n if i else n, place, imports, defs))
     obs = {"placement": [DIRS[p] or "." for p in place], "imports": imports, "defs": defs}
     # the root reaches U<k> by qualified name: every file must be loaded, i.e. reachable through imports
@@ -124,7 +129,7 @@ def run_case(n, place, imports, defs):
         return None, obs, None
     expected_fail = any(resolve(i, nm, imports, defs) is None for i in range(n) for nm in NAMES)
     try:
-        mm = metamodel_from_file(os.path.join(d, "f0.tx"))
+        mm = metamodel_from_file(os.path.join(d, fname(0) + ".tx"))
     except TextXError as e:
         obs["outcome"] = "TextXError: " + str(e.message)[:100]
         if expected_fail and "Unexisting rule" in e.message:
